@@ -421,7 +421,7 @@ class C20(Spec):
     }
     assumptions = [
         "single-node, sequential: no scheduler/clock dimension; seeded operation-history search vs a list-of-bits model",
-        "writer seeks are modelled only for the documented use (seek to a byte boundary, overwrite whole bytes, seek back to a byte-aligned end)",
+        "writer seeks: byte-aligned seek-back patches over fixed-width fields are followed by the full mirrored read-back; arbitrary (byte, bit) seeks are modelled by the documented rule (a byte the writer enters is rebuilt from an empty byte: bits it does not write there become 0) and judged on the final bytes only",
         "negative bounded-block lengths are checked on the BitstreamWriter/BitstreamReader pair only (the validator cannot produce them; observation O3 in DESIGN section 10)",
         "a write that must fail inside a bounded block (0 past the end) ends the history: the state after a failed multi-bit write is not specified",
     ]
@@ -490,8 +490,15 @@ class C20(Spec):
                 else:
                     L = rng.choice([-3, -1, 0, 0, 1, 2, 3, 5, 8, 13, 24, 40])
                 ops.append({"op": "bb", "len": L, "ops": inner, "fill": rng.choice(["0", "1", "r"]), "fseed": rng.randrange(1 << 16)})
-            elif r < 0.9:
+            elif r < 0.88:
                 ops.append({"op": "patch", "at": rng.randrange(0, 8), "n": rng.choice([1, 2, 4]), "v": rng.randrange(1 << 8)})
+            elif r < 0.91:
+                # writer seek to an arbitrary (byte, bit): documented to zero the
+                # bits already set in that byte; fixed-width writes follow
+                ops.append({"op": "wseek", "byte": rng.randrange(0, 6), "bit": rng.randrange(8),
+                            "then": [{"op": "nbits", "n": rng.choice([0, 1, 3, 8, 11]), "v": 0} for _ in range(rng.randrange(0, 3))]})
+                for t in ops[-1]["then"]:
+                    t["v"] = rng.randrange(1 << t["n"]) if t["n"] else 0
             elif r < 0.95:
                 ops.append({"op": "flush"})
             else:
@@ -539,13 +546,48 @@ class C20(Spec):
             fixed[at : at + len(bs)] = [is_fixed] * len(bs)
 
         terminal = False
+        seeked = False
         for step, o in enumerate(case["ops"]):
+            if seeked:
+                break  # after an arbitrary writer seek only the final bytes are compared
             k = o["op"]
             shape.append(k[0] if k != "bb" else "B")
             stats["w:" + k] += 1
             try:
                 if k in ("flush",):
                     w.flush()
+                    continue
+                if k == "wseek":
+                    # documented: seeking to a byte overwrites the bits already
+                    # set in that byte with 0 (the byte is rewritten from the
+                    # writer's empty current byte once a bit is written or, for
+                    # a mid-byte position, at the next flush)
+                    if o["byte"] * 8 > pos:
+                        continue
+                    w.seek(o["byte"], o["bit"])
+                    seeked = True
+                    pos = o["byte"] * 8 + (7 - o["bit"])
+                    entered = set()
+
+                    def touch(kb):
+                        # the writer rebuilds every byte it enters from an empty
+                        # current byte: bits it does not write there become 0
+                        if kb not in entered:
+                            entered.add(kb)
+                            put([0] * 8, kb * 8)
+
+                    if o["bit"] != 7:
+                        touch(o["byte"])  # a mid-byte position is flushed even if nothing is written
+                    for t in o["then"]:
+                        bs = m_bits(t)
+                        if bs:
+                            for kb in range(pos // 8, (pos + len(bs) - 1) // 8 + 1):
+                                touch(kb)
+                            w_apply(w, t)
+                            put(bs, pos)
+                            pos += len(bs)
+                    if w.tell() != pos_tuple(pos):
+                        return viol("C20/writer-tell-after-seek", "writer tell() %r, model %r after %r" % (w.tell(), pos_tuple(pos), o))
                     continue
                 if k == "align":
                     n = (-pos) % 8
@@ -653,6 +695,9 @@ class C20(Spec):
         events.append(("written", data.hex()))
         if bytes(packed) != data:
             return viol("C20/written-bytes", "file holds %s, model %s" % (data.hex(), bytes(packed).hex()))
+        if seeked:
+            stats["writer-seeks"] += 1
+            return Outcome(OK, events, stats=stats, nontrivial=len(case["ops"]) >= 2, key="".join(shape)[:24] + "|wseek", ticks=step)
         if terminal:
             return Outcome(OK, events, stats=stats, nontrivial=len(case["ops"]) >= 2, key="".join(shape)[:24] + "|zero-past-end", ticks=step)
 
